@@ -32,7 +32,15 @@ def run_impl(ld, cfg, lens, as_float=False):
     """returns list of (ids, pulled at that yield) or ('raised', class name)"""
     bs, rate, mts, exp, maxbuf, drop, sortmode = cfg
     conv = (lambda q: float(q)) if as_float else (lambda q: q)
-    exs = [{'id': i, 'len': conv(l)} for i, l in enumerate(lens)]
+    # examples are dicts, or - in every fourth configuration - tuples / lists (length, id) with a positional length key: the example is
+    # one item of the batch whatever container type it is
+    shape = ('dict', 'dict', 'tuple', 'list')[(len(lens) * 3 + bs) % 4] if not as_float else 'dict'
+    if shape == 'dict':
+        exs = [{'id': i, 'len': conv(l)} for i, l in enumerate(lens)]
+        LK, IDOF = 'len', (lambda e: e['id'])
+    else:
+        exs = [((conv(l), i) if shape == 'tuple' else [conv(l), i]) for i, l in enumerate(lens)]
+        LK, IDOF = 0, (lambda e: e[1])
     src = Src(exs)
 
     class DS(ld.core.Dataset):
@@ -42,17 +50,17 @@ def run_impl(ld, cfg, lens, as_float=False):
         def copy(s, freeze=False):
             return s
     kw = dict(max_total_size=None if mts is None else conv(mts), expiration=exp, max_buffered_examples=maxbuf, drop_incomplete=drop,
-              sort_key=None if sortmode == 0 else 'len', reverse_sort=sortmode == 2)
+              sort_key=None if sortmode == 0 else LK, reverse_sort=sortmode == 2)
     if (len(lens) + bs) % 2:
         # arguments that equal their documented default (None / False) are left out
         kw = {k: v for k, v in kw.items() if v is not None and v is not False}
     if (len(lens) + bs + (exp or 0)) % 3 == 0:
         # every argument by POSITION, in the documented order (batch_size, len_key, max_padding_rate, max_total_size, expiration,
         # max_buffered_examples, drop_incomplete, sort_key, reverse_sort)
-        ds = DS().batch_dynamic_time_series_bucket(bs, 'len', conv(rate), None if mts is None else conv(mts), exp, maxbuf, drop,
-                                                   None if sortmode == 0 else 'len', sortmode == 2)
+        ds = DS().batch_dynamic_time_series_bucket(bs, LK, conv(rate), None if mts is None else conv(mts), exp, maxbuf, drop,
+                                                   None if sortmode == 0 else LK, sortmode == 2)
     else:
-        ds = DS().batch_dynamic_time_series_bucket(batch_size=bs, len_key='len', max_padding_rate=conv(rate), **kw)
+        ds = DS().batch_dynamic_time_series_bucket(batch_size=bs, len_key=LK, max_padding_rate=conv(rate), **kw)
     out = []
     # what is iterated is the object itself, a copy of it, a copy of a pipeline built on it, or the profiler's internal copy
     # (deterministic choice per configuration): copies keep every parameter
@@ -62,7 +70,7 @@ def run_impl(ld, cfg, lens, as_float=False):
         elif how == 2: ds = ds.map(_ident).copy(freeze=True)
         elif how == 3: ds = ld.core.ProfilingDataset(ds)
         for batch in ds:
-            out.append(([e['id'] for e in batch], src.pulled))
+            out.append(([IDOF(e) for e in batch], src.pulled))
     except Exception as e:
         return ('raised', type(e).__name__)
     return out
